@@ -187,6 +187,9 @@ func (op _OpcodeType) decodeI(x uint32) (as abi.As, arg *abi.AsArgument, argRaw 
 					}
 					arg.Imm = imm & 0b_11_1111
 				}
+				if (abi.As(i) == AECALL && imm != 0) || (abi.As(i) == AEBREAK && imm != 1) {
+					continue // same opcode and funct3, told apart by the immediate
+				}
 				as = abi.As(i)
 				break
 			}
